@@ -288,7 +288,7 @@ impl Property for C13 {
         "C13"
     }
     fn rule(&self) -> String {
-        "proptest draws (rate type pair from a representative set: Length/Duration, Mass/Volume, DataVolume/AmountT, AmountT/Duration, single-unit and no-reference-unit types on either side, synthetic pair, Energy/Mass; term and per units and amounts; a per-quantity and a term-quantity operand in any unit where a reference unit exists). Oracle: components bit-exact through new/from_qty_vals/reciprocal (twice = identity); rate*p, p*rate in the term unit and t/rate, reciprocal*t in the per unit against the exact rational formula with the rounding budget; (rate*p)/rate = p and (t/rate)*rate = t within the propagated budgets. Non-trivial: per-multiple neither 1 nor a power of ten and an operand unit different from the rate's unit; distinct by full case".into()
+        "proptest draws (rate type pair from a representative set of 13: Length/Duration, Mass/Volume, DataVolume/AmountT, AmountT/Duration, single-unit and no-reference-unit types on either side (synthetic and Temperature), synthetic pair, Energy/Mass, Force/Area, DataThroughput/Power; term and per units and amounts; a per-quantity and a term-quantity operand in any unit where a reference unit exists). Oracle: components bit-exact through new/from_qty_vals/reciprocal (twice = identity); rate*p, p*rate in the term unit and t/rate, reciprocal*t in the per unit against the exact rational formula with the rounding budget; (rate*p)/rate = p and (t/rate)*rate = t within the propagated budgets. Non-trivial: per-multiple neither 1 nor a power of ten and an operand unit different from the rate's unit; distinct by full case".into()
     }
     fn tape_len(&self) -> usize {
         30
